@@ -389,7 +389,7 @@ theorem step_prov (s0 : List Resp) (r : Rd) (op : ROp) (hinv : Inv r) (hs : r.Sm
     split at he
     · exact h1.allowed e he
     · simp at he
-  | release =>
+  | release e =>
     have := release_frame r
     exact ⟨by simpa [Rd.step] using hp.frame this.1 this.2, by intro e he; simp [Rd.step, RRes.err] at he⟩
   | readLen =>
